@@ -148,6 +148,15 @@ func genFrame(g *genCtx) {
 			}
 		}
 	}
+	// (iv) the upper end of the scope: frames of 64 KiB - 1 and 64 KiB octets, followed by a small one
+	for _, cd := range codecs {
+		for _, total := range []int{65535, 65536} {
+			big := mkFrame(randBytes(r, total-4))
+			small := mkFrame(randBytes(r, 12))
+			emit(frameCase(cd, [][]byte{big, small}, nil, nil, "eof", true, false))
+			emit(frameCase(cd, [][]byte{big, small}, nil, []int{total - 1, 1 + len(small)}, "eof", false, true))
+		}
+	}
 	// (iii) random frame lists, random multi-cut schedules, random interleavings
 	nr := 600
 	maxBody := 300
@@ -262,12 +271,22 @@ func frameCaseRand(rr *rand.Rand, cd string, frames [][]byte, tail []byte, cuts 
 	return c
 }
 
+// one codec value serves many connections in a server: every second stream goes through these
+var sharedFrameCodecs = map[string]codec.Codec{"smpp": codec.NewSMPPCodec(), "cmpp": codec.NewCMPPCodec()}
+
 func runFrame(c Case, tr *Tracer) {
 	var cd codec.Codec
 	if caseStr(c, "codec") == "smpp" {
 		cd = codec.NewSMPPCodec()
 	} else {
 		cd = codec.NewCMPPCodec()
+	}
+	if caseInt(c, "t")%2 == 0 {
+		if caseStr(c, "codec") == "smpp" {
+			cd = sharedFrameCodecs["smpp"]
+		} else {
+			cd = sharedFrameCodecs["cmpp"]
+		}
 	}
 	stream := caseBytes(c, "stream")
 	conn := &scriptedConn{fault: caseStr(c, "fault")}
